@@ -398,7 +398,7 @@ let prefix_keys (spec : string) : int list =
       Array.to_list a
   | _ -> []
 
-let explore cap u maxstates depth prefix =
+let explore cap u maxstates depth prefix flavor =
   match b_new (nat_of_int cap) with
   | None -> prerr_endline "explore: capacity rejected"
   | Some b0 ->
@@ -413,15 +413,26 @@ let explore cap u maxstates depth prefix =
     let nh = ref 0 and nstates = ref 1 and truncated = ref false and maxh = ref 0 in
     let probes = Printf.sprintf "V\nQ\nL\nFL\nIT items,fast,keys 0:%d 1:%d 2:%d\nRG I %d E %d\nRG E %d I %d\nIR %d %d\n"
         (u + 2) (u + 2) (u + 2) (u / 3) (u - 1) (u / 4) (u / 2) (u / 2) u in
-    let tag = Printf.sprintf "x%d.%d.%s.%d" cap u (String.concat "" (String.split_on_char ':' prefix)) depth in
+    let tag = Printf.sprintf "x%s%d.%d.%s.%d" (if flavor = "basic" then "" else flavor) cap u (String.concat "" (String.split_on_char ':' prefix)) depth in
     while not (Queue.is_empty q) do
       let (b, path_rev, sid) = Queue.pop q in
       let plen = List.length path_rev in
       let path = String.concat "" (List.rev_map (fun l -> l ^ "\n") path_rev) in
       for k = 0 to u - 1 do
         List.iter (fun ins ->
-          let line = if ins then Printf.sprintf "I %d %d %d" k sid (sid * 10) else Printf.sprintf "R %d" k in
-          let op = if ins then OInsert (key_of k sid, z_of_int (sid * 10)) else ORemove (z_of_int k) in
+          (* flavor: the calls used for the transitions (basic insert/remove, the validating try_ pair, or remove_item) *)
+          let line = match flavor, ins with
+            | "try", true -> Printf.sprintf "TI %d %d %d" k sid (sid * 10)
+            | "try", false -> Printf.sprintf "TR %d" k
+            | "item", false -> Printf.sprintf "RI %d" k
+            | _, true -> Printf.sprintf "I %d %d %d" k sid (sid * 10)
+            | _, false -> Printf.sprintf "R %d" k in
+          let op = match flavor, ins with
+            | "try", true -> OTryInsert (key_of k sid, z_of_int (sid * 10))
+            | "try", false -> OTryRemove (z_of_int k)
+            | "item", false -> ORemoveItem (z_of_int k)
+            | _, true -> OInsert (key_of k sid, z_of_int (sid * 10))
+            | _, false -> ORemove (z_of_int k) in
           let (b', out) = step b op in
           pr "H %s.%d rust cap=%d dump=%d\n%s%s\nG %d\n%s" tag !nh cap (plen + 1) path line k probes;
           incr nh;
@@ -488,7 +499,7 @@ let explore_arena n =
 let () =
   if Array.length Sys.argv > 2 && Sys.argv.(1) = "--explore-arena" then (explore_arena (ios Sys.argv.(2)); exit 0);
   if Array.length Sys.argv > 4 && Sys.argv.(1) = "--explore" then (explore (ios Sys.argv.(2)) (ios Sys.argv.(3)) (ios Sys.argv.(4))
-      (if Array.length Sys.argv > 5 then ios Sys.argv.(5) else 0) (if Array.length Sys.argv > 6 then Sys.argv.(6) else "-"); exit 0);
+      (if Array.length Sys.argv > 5 then ios Sys.argv.(5) else 0) (if Array.length Sys.argv > 6 then Sys.argv.(6) else "-") (if Array.length Sys.argv > 7 then Sys.argv.(7) else "basic"); exit 0);
   if Array.length Sys.argv > 2 && Sys.argv.(1) = "--coq" then (coq_mode Sys.argv.(2); exit 0);
   let ic = if Array.length Sys.argv > 1 then open_in Sys.argv.(1) else stdin in
   let state = ref Dead in
